@@ -70,7 +70,7 @@ def run(tier, out):
     else:
         cov["explanation"] = "no design-level state graph in this run"
     cloudcommon.design(PID, tier, out, cov)
-    cloudcommon.part(PID, tier, out, cov)
+    cloudcommon.part(PID, tier, out, cov, extra={"restart / silence / close runs": tp + ".cloud"})
     return out.finish("model_checking", cov, assumptions=[
         "peer timeout 130 s in the recorded runs; a restarted node dials one other node; nodes that nobody knows any more stay isolated (no bootstrap) - not a C12 matter",
         "the expected claims of a peer entry are those the harness configured for the node instance whose node id the entry carries"])
